@@ -20,12 +20,12 @@ PROPS = {
     "C20": {
         "module": "CqlVerif.Props.C20",
         "claim": "theorems by kernel evaluation over behaviour tables regenerated from the real option parsers on every run (every letter-case variant of every documented spelling + near-misses): names select what they denote, are injective, unknown names rejected; Model/Config mirrors the start-up validation order",
-        "note": "trusted: Lean kernel, the tabulator (calls the real functions through verif hooks), documented-name table in Spec/Names.lean; kong/yaml parsing and the Run-level refusal are exercised by the cfg stream, not proved",
+        "note": "trusted: Lean kernel, the tabulator (calls the real functions through verif hooks), documented-name table in Spec/Names.lean; kong/yaml parsing is library behaviour: the Run-level refusal is tied to Model/Config.validate by the cfg stream",
         "technique": "Lean 4 kernel-checked table theorems over regenerated behaviour tables + differential",
         "gens": ["config"],
-        "streams": [{"name": "names", "quick": 2000, "thorough": 100000}],
+        "streams": [{"name": "names", "quick": 2000, "thorough": 100000}, {"name": "cfg", "quick": 120, "thorough": 6000}],
         "shrink": False,
-        "rule": "names: every letter-case variant of every documented protocol-version spelling (v3 v4 v5 DSEv1 DSEv2 3 4 5 65 66) and near-misses, consistency names in sampled (quick) / all (thorough, and always in Gen.ConfigTables) letter cases, plus mutated names; distinct = distinct byte strings; non-trivial = all (each exercises the real parser)",
+        "rule": "cfg: the real proxy.Run in a child process against a fake backend, options supplied as flags / environment variables / a YAML file (and the same option through two sources), each inconsistency of the property through each source, durations and connection counts around their boundaries, version pairs, peers with and without rpc-address / tokens, unknown names, malformed YAML; observed: exit code or, when it starts, the version used towards the backend and the highest version accepted from clients; compared with Model/Config.validate on the effective configuration. names: every letter-case variant of every documented protocol-version spelling (v3 v4 v5 DSEv1 DSEv2 3 4 5 65 66) and near-misses, consistency names in sampled (quick) / all (thorough, and always in Gen.ConfigTables) letter cases, plus mutated names; distinct = distinct byte strings; non-trivial = all (each exercises the real parser)",
         "trusted_base": [KERNEL, DRIVER, HARNESS,
                          "Gen/ConfigTables.lean is regenerated on every run by calling the real parseProtocolVersion / clWrapper.UnmarshalText (hooks VerifParseProtocolVersion, VerifUnmarshalConsistency) on a finite, exhaustively covered domain",
                          "Model/Config.lean (validation order in Run/buildNodes) is hand-written; kong/yaml parsing is library behaviour"],
